@@ -45,6 +45,9 @@ func kfRepeat(args []KeyBuilderStage) (KeyBuilderStage, error) {
 		if err != nil {
 			return ErrorNum
 		}
+		if count < 0 {
+			return ErrorValue
+		}
 		return strings.Repeat(char, count)
 	}), nil
 }
